@@ -73,6 +73,7 @@ class Ctx:
     self._cache = {}
     self._restruct = {}
     self.robust = ()
+    self.reflective = []
     self._reflective_scan()
 
   # ---- engine access
@@ -188,8 +189,9 @@ class Ctx:
           bad.append('%s:%d %s' % (mi.rel, n.lineno, n.func.id))
         if isinstance(n, ast.Attribute) and n.attr == '__dict__':
           bad.append('%s:%d __dict__' % (mi.rel, n.lineno))
-    if bad:
-      raise AnalysisError('reflective constructs in analysed code (trusted base broken): %s' % bad[:5])
+    # not fatal at once: rules that positively locate a deviation may still report it; without a violation the run ends as
+    # "cannot decide" (run_rules), because every "holds" verdict rests on the absence of reflective writes
+    self.reflective = bad
 
 
 # ----------------------------------------------------------------- known findings
@@ -227,6 +229,8 @@ def run_rules(prop, tier='quick', overlay=None, repo=None):
       ctx.note('analysis stopped early (%s); the violations found before that point are the verdict' % e)
     else:
       raise
+  if ctx.reflective and not any(o.status == 'violation' for o in ctx.obligations):
+    raise AnalysisError('reflective constructs in analysed code (trusted base broken): %s' % ctx.reflective[:5])
   # failed shape rules in restructured functions: no verdict (unless real violations were found elsewhere)
   und = [o for o in ctx.obligations if o.status == 'undecided']
   if und and not any(o.status == 'violation' for o in ctx.obligations):
